@@ -16,11 +16,11 @@ CLAIMED = {
         'Bounded: n<=12, k<=6, depth 2, offsets<=2; <=4 parts of length<=3. Elements are abstract positions held in Python lists.',
         '5/C09'),
     'C10': (
-        'TLA+ spec (Checkpoint.tla) model-checked by TLC; bounded histories of next/capture/restore replayed on the real iterators and pipelines',
+        'TLA+ specs Checkpoint.tla and CheckpointThreads.tla model-checked by TLC; bounded histories of next/capture/restore replayed on the real iterators and pipelines, threaded iterators checkpointed at quiescent points',
         'TLC checks Exact (delivered ++ rest = uninterrupted) for every cut, generation and shard chain, and rejects the '
         'pinned state formula (sensitivity); all histories up to the bound plus simulated deeper ones are replayed on '
         'SequenceIterator, DataIterator, one- and two-stage pipeline iterators with aggregates.',
-        'Bounded: n<=6, k<=3, nested depth 2, <=3 saved states, <=4 generations. Threaded configurations are handled by the scheduler-driven part.',
+        'Bounded: n<=6, k<=3, nested depth 2, <=3 saved states, <=4 generations. Threaded configurations (num_threads 1-3): CheckpointThreads.tla decides the checkpoint design (all interleavings of workers, queue and consumer for n<=10); the real threaded iterator is checkpointed at quiescent points only.',
         '5/C10'),
     'C19': (
         'TLA+ spec (Rebatch.tla: declarative chunking + carry-over machine, refinement checked by TLC); every behaviour replayed on rebatched_args and pipelines',
